@@ -15,6 +15,15 @@ git apply "$dst/patch.diff" || { echo "patch does not apply in worktree"; exit 2
 PYTHONPATH="$wt" timeout 120 /venv/bin/python demo.py >/dev/null 2>&1; seeded=$?
 tests=$(PYTHONPATH="$wt" timeout 300 /venv/bin/python -m pytest -q -p no:cacheprovider 2>&1 | tail -1)
 echo "demo on original: exit $orig ; demo with change: exit $seeded ; tests: $tests"
+# SEED_VIA_WT=1: run the checks against the worktree (which carries the change) through VERIF_REPO and leave /repo alone -
+# for when another run is using /repo at the same time
+if [ "${SEED_VIA_WT:-0}" = 1 ]; then
+  res=""
+  for p in $prop $extra; do
+    out=$(cd /verif && VERIF_REPO="$wt" timeout 600 ./check $p 2>&1 | grep -v "^KNOWN" | tail -2 | head -1)
+    echo "  $p: $out"; res="$res$p: $out\n"
+  done
+else
 cd /repo && git status --short | grep -q . && { echo "/repo not clean"; exit 2; }
 git apply "$dst/patch.diff" || { echo "patch does not apply to /repo"; exit 2; }
 res=""
@@ -23,6 +32,7 @@ for p in $prop $extra; do
   echo "  $p: $out"; res="$res$p: $out\n"
 done
 git checkout -q -- . ; git status --short | head -2
+fi
 /venv/bin/python - "$dst" "$prop" "$orig" "$seeded" "$tests" "$res" <<'PY'
 import json,sys,os
 dst,prop,orig,seeded,tests,res=sys.argv[1:7]
